@@ -120,6 +120,21 @@ def run(ctx):
             if bad:
                 ctx.violation(key % bad[0], "%s(%s): %s" % (name, cfg, bad[1]), dict(rep, noise_var=nv))
                 break
+        # a per-symbol noise-variance tensor with unequal entries: every LLR is divided by its own symbol's variance
+        if b >= 1 and len(ys) >= 8:
+            sel_ = list(range(0, len(ys), max(1, len(ys) // 24)))[:24]
+            ysub = yt[sel_].reshape(2, -1)
+            nvs = torch.tensor([rng.choice([1e-2, 0.1, 0.7, 3.0, 40.0]) for _ in range(ysub.numel())]).reshape(ysub.shape)
+            try:
+                st = dem(ysub, noise_var=nvs).reshape(ysub.numel(), -1)
+                ref = torch.stack([dem(ysub.reshape(-1)[i:i + 1].reshape(1, 1), noise_var=float(nvs.reshape(-1)[i])).reshape(-1) for i in range(ysub.numel())])
+                ctx.count("soft-outputs", st.numel())
+                if st.shape != ref.shape or not torch.allclose(st, ref, rtol=1e-4, atol=1e-5):
+                    j = int((st - ref).abs().max(dim=1)[0].argmax()) if st.shape == ref.shape else 0
+                    ctx.violation(key % "per-symbol-variance", "%s(%s): with a per-symbol noise-variance tensor of unequal entries, symbol %d (variance %g) gets LLRs %s; with that variance as a scalar it gets %s" % (
+                        name, cfg, j, float(nvs.reshape(-1)[j]), [round(v, 4) for v in st[j].tolist()] if st.shape == ref.shape else tuple(st.shape), [round(v, 4) for v in ref[j].tolist()]), rep)
+            except Exception as ex:
+                ctx.note("%s(%s): per-symbol variance tensor of shape %s raised %s" % (name, cfg, tuple(ysub.shape), str(ex)[:60]))
         # T: model
         pts = [(Fraction(float(z.real)), Fraction(float(z.imag))) for z in c]
         sel = [i for i, a in enumerate(amb) if not a][: (80 if quick else 400)]
